@@ -224,7 +224,7 @@ fn pool_get_any_ref() {
 // ---------------------------------------------------------------------------
 // _StringPool stream: reader against the format, any bytes (bounded length)
 
-// @harness name=pool_read_header_any kind=Bk tier=quick props=C02,C09 bound="any stream of 0..=12 bytes (header + up to 2 entries)" desc="read_from_pool never panics; fewer than 4 bytes is an error; bit 31 of the header selects 3-byte references; the low 31 bits must be a known code page id (0 = default); every complete 4-byte entry is (length, refcount), and an entry with length 0 and refcount > 0 is the long-string escape whose length is refcount<<16 | next length, count = next refcount"
+// @harness name=pool_read_header_any kind=Bk tier=thorough props=C02,C09 bound="any stream of 0..=12 bytes (header + up to 2 entries)" desc="read_from_pool never panics; fewer than 4 bytes is an error; bit 31 of the header selects 3-byte references; the low 31 bits must be a known code page id (0 = default); every complete 4-byte entry is (length, refcount), and an entry with length 0 and refcount > 0 is the long-string escape whose length is refcount<<16 | next length, count = next refcount"
 #[kani::proof]
 #[kani::unwind(5)]
 #[kani::stub(alloc::fmt::format, stub_format)]
@@ -279,7 +279,7 @@ fn pool_read_header_any() {
     }
 }
 
-// @harness name=pool_build_from_data_any kind=Bk tier=quick props=C02,C09 bound="<= 2 entries, lengths <= 3, data of 0..=6 bytes; decode stubbed" desc="build_from_data never panics: it returns an error when the data stream is shorter than the declared lengths and otherwise one entry per declared (length, refcount) with the refcounts as declared, flags copied from the builder and the pool marked unmodified"
+// @harness name=pool_build_from_data_any kind=Bk tier=thorough props=C02,C09 bound="<= 2 entries, lengths <= 3, data of 0..=6 bytes; decode stubbed" desc="build_from_data never panics: it returns an error when the data stream is shorter than the declared lengths and otherwise one entry per declared (length, refcount) with the refcounts as declared, flags copied from the builder and the pool marked unmodified"
 #[kani::proof]
 #[kani::unwind(5)]
 #[kani::stub(alloc::fmt::format, stub_format)]
@@ -314,7 +314,7 @@ fn pool_build_from_data_any() {
 // ---------------------------------------------------------------------------
 // _StringPool stream: writer, and writer/reader as a pair
 
-// @harness name=pool_write_read_pair kind=Bk tier=quick props=C01,C08,C02 bound="2 entries; encoded lengths 0..=3 (CodePage::encode stubbed by any bytes of that length); refcounts all of u16; both reference widths; all 26 code pages" desc="write_pool emits header = code page id | (bit 31 iff long refs) and one (length, refcount) pair per entry in order; read_from_pool of those bytes yields the same code page, width flag and (length, refcount) list -- PROVIDED no entry has length 0 with refcount > 0 (that pair is the reader's long-string escape; the pool invariant rules it out)"
+// @harness name=pool_write_read_pair kind=Bk tier=thorough props=C01,C08,C02 bound="2 entries; encoded lengths 0..=3 (CodePage::encode stubbed by any bytes of that length); refcounts all of u16; both reference widths; all 26 code pages" desc="write_pool emits header = code page id | (bit 31 iff long refs) and one (length, refcount) pair per entry in order; read_from_pool of those bytes yields the same code page, width flag and (length, refcount) list -- PROVIDED no entry has length 0 with refcount > 0 (that pair is the reader's long-string escape; the pool invariant rules it out)"
 #[kani::proof]
 #[kani::unwind(5)]
 #[kani::stub(alloc::fmt::format, stub_format)]
